@@ -214,6 +214,52 @@ def oracle_module_time(kind, fi, k):
     return None
 
 
+
+# ------------------------------------------------------------------------------------------------------------------------
+# correspondence: the head of `Time.init(sim)` on real `ss.Time` objects vs `timeInit Gen.timeInitSteps` (driver op `modtime`)
+
+def _rat(x):
+    from fractions import Fraction
+    f = Fraction(float(x)); return f'{f.numerator}/{f.denominator}'
+
+
+def round6_cases(ctx, ask):
+    import starsim as ss
+    from harness.props.c17_timepar import NOT_UNITS
+    frames = [('year', 0.25), ('year', 1.0), ('day', 2.0), ('week', 0.5), ('month', 0.5)]
+    names = [None] + sorted(n for n in DOC_CANON if n not in ('unitless', 'none')) + NOT_UNITS[:6]
+    for su, sdt in frames:
+        try:
+            sim = ss.Sim(n_agents=20, unit=su, dt=sdt, dur=4, start={'year': 2000}.get(su, '2020-01-01'), verbose=0); sim.init()
+        except Exception as e:
+            ctx.count('modtime_frame_exceptions'); continue
+        for n in names:
+            if isinstance(n, str) and (' ' in n or n == ''): continue
+            for dt in (None, sdt, 3.0):
+                t = None
+                try:
+                    t = ss.Time(unit=n, dt=dt, init=False); t.init(sim=sim)
+                    impl = f'ok {t.unit if t.unit is not None else "-"} {_rat(t.dt)}'
+                except Exception as e:
+                    if type(e).__name__ == 'KeyNotFoundError': impl = 'E:KeyNotFound'
+                    elif t is not None and t.dt is not None and t.start is not None:     # the TAIL of init (vectors; C07's part) refused this unit/dt: the head's result stands
+                        impl = f'ok {t.unit if t.unit is not None else "-"} {_rat(t.dt)}'
+                    else: impl = f'E:{type(e).__name__}'
+                def cb(ml, impl=impl, n=n, dt=dt, su=su, sdt=sdt):
+                    ok = ml[0] == impl or (ml[0].startswith('ok') and impl.startswith('ok') and ml[0].split()[1] == impl.split()[1]
+                                           and _same_rat(ml[0].split()[2], impl.split()[2]))
+                    ctx.case(('modtime', su, sdt, n, dt), ok, sample=dict(kind='module-timeline', unit=n, dt=dt, sim=[su, sdt], impl=impl))
+                    if not ok:
+                        ctx.broke('correspondence', 'C17.modtime', f'ss.Time(unit={n!r}, dt={dt!r}).init(sim with unit={su!r}, dt={sdt}): impl `{impl}` vs model `{ml[0]}`',
+                                  data=dict(kind='module-time-head', unit=n, dt=dt, sim=[su, sdt]))
+                ask([f'modtime {n if n is not None else "-"} {_rat(dt) if dt is not None else "-"} {su} {_rat(sdt)}'], cb)
+
+
+def _same_rat(a, b):
+    from fractions import Fraction
+    try: return Fraction(a) == Fraction(b)
+    except Exception: return a == b
+
 # ------------------------------------------------------------------------------------------------------------------------
 
 def search(ctx):
@@ -222,7 +268,7 @@ def search(ctx):
     # (2) every kind x every frame, each quick run (k rotates the name/route pairing)
     for ki, kind in enumerate(KINDS):
         for fi in range(len(FRAMES)):
-            if not ctx.budget(False, True) and (ki + fi) % 2 and kind not in ('sis',):      # quick: SIS on every frame, the others on every second
+            if not ctx.budget(False, True) and kind != 'sis' and (ki + fi + rot) % 4 != 0:      # quick: SIS on every frame, the others on two (rotating)
                 continue
             f = oracle_module_time(kind, fi, rot + ki + fi)
             ctx.count('oracle_module_time')
@@ -233,7 +279,10 @@ def search(ctx):
     for i, (name, cfg) in enumerate(cfgs):
         if cfg.get('own_people'): continue
         special = (cfg.get('dt', 1.0) not in (1, 1.0)) or any(any(k in m for k in impl.TIME_KEYS) for key in ('diseases', 'networks', 'demographics') for m in cfg.get(key, []))
-        vs = VARIANTS if (special or ctx.budget(False, True)) else (VARIANTS[(i + rot) % 3],)
+        if ctx.budget(False, True): vs = VARIANTS
+        elif special: vs = ('module-alias',) + ((('sim-alias', 'module-explicit-dt')[(i + rot) % 2],) if (i + rot) % 3 == 0 else ())   # quick: the module-level names always
+        elif (i + rot) % 2: vs = (VARIANTS[(i + rot) % 3],)
+        else: continue
         base = None
         for v in vs:
             if respell(cfg, v, rot + i) is None: continue
